@@ -120,7 +120,7 @@ def parse_model(line):
     return dict(final=["run", "exit", "crash"][fin], code=code, execs=execs, vals=vals, plan=plan, orderings=orderings)
 
 # ------------------------------------------------------------------------------------------------ input files
-def make_generated(rng, wd, name, nlayers):
+def make_generated(rng, wd, name, nlayers, dense=False):
     d = os.path.join(wd, name); os.makedirs(d, exist_ok=True)
     radii = [1.0]
     for _ in range(nlayers - 1): radii.insert(0, round(radii[0] * rng.uniform(0.82, 0.92), 3))
@@ -137,9 +137,11 @@ def make_generated(rng, wd, name, nlayers):
     ne = rng.randint(3, 6)
     f["elec"] = os.path.join(d, "electrodes.patches"); models.write_points(f["elec"], models.sensors_on_sphere(rng, ne, (0, 0, 0), 1.0), ["E%03d" % k for k in range(ne)])
     f["ecog"] = os.path.join(d, "ecog.electrodes"); models.write_points(f["ecog"], models.sensors_on_sphere(rng, 3, (0, 0, 0), r0), ["G%03d" % k for k in range(3)])
-    sq = models.sensors_on_sphere(rng, rng.randint(3, 5), (0, 0, 0), 1.25)
+    # dense=True: sensor arrays larger than any blocking a tool could apply to its products (row counts just past 256 and
+    # not multiples of it: a tool that forms Head2Sensors*HeadMatInv slice by slice must still compute every row; seeded C20-16)
+    sq = models.sensors_on_sphere(rng, rng.choice([257, 300, 389]) if dense else rng.randint(3, 5), (0, 0, 0), 1.25)
     f["squids"] = os.path.join(d, "sensors.squids"); models.write_squids(f["squids"], sq, [models.random_unit(rng) for _ in sq], ["M%03d" % k for k in range(len(sq))])
-    f["points"] = os.path.join(d, "inner_points.txt"); models.write_points(f["points"], models.sensors_on_sphere(rng, 4, (0, 0, 0), 0.5 * r0))
+    f["points"] = os.path.join(d, "inner_points.txt"); models.write_points(f["points"], models.sensors_on_sphere(rng, rng.choice([258, 301, 390]) if dense else 4, (0, 0, 0), 0.5 * r0))
     with open(os.path.join(d, "eit.patches"), "w") as fh:
         for k, p in enumerate(models.sensors_on_sphere(rng, 2, (0, 0, 0), 1.0)):
             fh.write("T%03d %r %r %r %r\n" % (k, p[0], p[1], p[2], 0.3))
@@ -911,7 +913,7 @@ def main(replay=None):
     R.tidx = {n: k for k, n in enumerate(parsed_names)}
     fill_documented_roles(ck, gen_tools_list)
     rng = ck.rng; wd = ck.workdir
-    fsets = [make_generated(rng, wd, "m3", 3), make_generated(rng, wd, "m0", 2)]
+    fsets = [make_generated(rng, wd, "m3", 3), make_generated(rng, wd, "m0", 2, dense=True)]
     h1 = make_head1(rng, wd)
     if h1: fsets.append(h1)
     # ---- table conditions (what the theorems are about), recomputed by the extracted model
